@@ -68,6 +68,13 @@ fn crossed(mut c: Cfg) -> Cfg {
     c
 }
 
+/// the same configuration with prefix-related counterparty channel ids: local channel-31 <-> remote
+/// channel-7, local channel-32 <-> remote channel-70
+fn prefixed(mut c: Cfg) -> Cfg {
+    c.first_chan = 4;
+    c
+}
+
 /// one native token, two channels
 fn native_cfg(name: &str, sz: Sz) -> Cfg {
     let mut c = Cfg::base(name);
@@ -337,9 +344,11 @@ fn configs(prop: &str, thorough: bool) -> Vec<(Cfg, Option<usize>)> {
                 v.push(default_cfg("C11/cw20-T2-under-default-limit/2ch", false));
                 v.push(pair_cfg("C11/native+cw20/2ch", false));
                 v.push(crossed(native_cfg("C11/native/2ch-crossed-ids", QUICK)));
+                v.push(prefixed(native_cfg("C11/native/2ch-prefix-related-remote-ids", QUICK)));
                 v.push(v2_cfg("C11/upgrade/v2-0.13.0-inflight", false));
             } else {
                 v.push(crossed(native_cfg("C11/native/2ch-crossed-ids/faults2", DEEP)));
+                v.push(prefixed(native_cfg("C11/native/2ch-prefix-related-remote-ids", QUICK)));
                 v.push(crossed(cw20_cfg("C11/cw20-listed-limit1/2ch-crossed-ids/faults2", Some(1), DEEP)));
                 v.push(native_cfg("C11/native/2ch/faults2", DEEP));
                 v.push(native_cfg("C11/native/2ch/funds4-inflight3", WIDE));
@@ -370,8 +379,10 @@ fn configs(prop: &str, thorough: bool) -> Vec<(Cfg, Option<usize>)> {
                 v.push(default_cfg("C12/fresh/cw20/T1-listed+T2-under-default", false));
                 v.push(pair_cfg("C12/fresh/native+cw20", false));
                 v.push(crossed(native_cfg("C12/fresh/native/crossed-channel-ids", QUICK)));
+                v.push(prefixed(native_cfg("C12/fresh/native/prefix-related-remote-channel-ids", QUICK)));
             } else {
                 v.push(crossed(native_cfg("C12/fresh/native/crossed-channel-ids/faults2", DEEP)));
+                v.push(prefixed(native_cfg("C12/fresh/native/prefix-related-remote-channel-ids", QUICK)));
                 v.push(crossed(cw20_cfg("C12/fresh/cw20/listed-limit1/crossed-channel-ids/faults2", Some(1), DEEP)));
                 v.push(native_cfg("C12/fresh/native/no-allowlist-no-default/faults2", DEEP));
                 v.push(native_cfg("C12/fresh/native/no-allowlist-no-default/funds4-inflight3", WIDE));
@@ -500,7 +511,10 @@ fn configs(prop: &str, thorough: bool) -> Vec<(Cfg, Option<usize>)> {
                     c.send_toks = vec![T1, T2, N0];
                     c.send_amounts = vec![1];
                     c.proper = vec![Base::Tok(T1), Base::Tok(T2), Base::Tok(N0)];
-                    c.recv_amounts = vec![1];
+                    // an empty packet still issues a payout sub-call for a denom the channel tracks; offered
+                    // in the configurations that start with a default (the smaller ones): zero-amount
+                    // payouts leave extra zero entries in the stores, which multiplies the state space
+                    c.recv_amounts = if dflt.is_some() && !allow.is_empty() { vec![0, 1] } else { vec![1] };
                     c.receivers = vec![Rcv::User(B)];
                     c.raws = vec![];
                     c.ack_kinds = vec![AckKind::Error];
@@ -549,7 +563,7 @@ fn configs(prop: &str, thorough: bool) -> Vec<(Cfg, Option<usize>)> {
 fn describe(prop: &str) -> (&'static str, &'static str) {
     match prop {
         "C11" => (
-            "user Transfer (native, with funds) and cw20 Send{TransferMsg} of 1-2 (thorough 1-3) tokens by A and B on either of two channels while < 2 (3) packets are in flight, with plain channel ids (channel-1/2, counterparty ends channel-71/72) and with CROSSED ids (local channel-5 <-> remote channel-15, local channel-15 <-> remote channel-5); incoming packets on either channel with denom in {proper voucher of this channel for the sent token / a never-sent token / cw20:<garbage> / cw20:<non-contract>, voucher prefix of the OTHER channel, other port, un-prefixed foreign denom, our own port/channel prefix, doubled prefix, two-part denom, proper prefix + '<escrowed denom>/junk' and '<escrowed denom>/'}, amount in {1,2,3,2^64}, receiver in {valid user(s), invalid address}, memo unset or \"x\", raw non-ICS20 bytes; two channels escrowing 2^64-1 of the same denom each with returning packets of 2^64-1 / 2^64 / 2^65-2; old-layout storages incl. a drained denom (outstanding 0) with a send in flight, and a 0.13.0 storage migrated with/without a default limit, then stray coins sent straight to the contract's account and further Migrate calls; for every packet in flight Ack(success) | Ack(error) | Ack(garbage) | Timeout in any order; payout / refund sub-call made to fail (recipient or token rejects; every gas-limited sub-call runs out of gas), at most 1 (thorough 2) faults per history",
+            "user Transfer (native, with funds) and cw20 Send{TransferMsg} of 1-2 (thorough 1-3) tokens by A and B on either of two channels while < 2 (3) packets are in flight, with plain channel ids (channel-1/2, counterparty ends channel-71/72) with CROSSED ids (local channel-5 <-> remote channel-15, local channel-15 <-> remote channel-5) and with PREFIX-RELATED counterparty ids (remote channel-7 and channel-70); incoming packets on either channel with denom in {proper voucher of this channel for the sent token / a never-sent token / cw20:<garbage> / cw20:<non-contract>, voucher prefix of the OTHER channel, other port, un-prefixed foreign denom, our own port/channel prefix, doubled prefix, two-part denom, proper prefix + '<escrowed denom>/junk' and '<escrowed denom>/'}, amount in {1,2,3,2^64}, receiver in {valid user(s), invalid address}, memo unset or \"x\", raw non-ICS20 bytes; two channels escrowing 2^64-1 of the same denom each with returning packets of 2^64-1 / 2^64 / 2^65-2; old-layout storages incl. a drained denom (outstanding 0) with a send in flight, and a 0.13.0 storage migrated with/without a default limit, then stray coins sent straight to the contract's account and further Migrate calls; for every packet in flight Ack(success \"1\" | success 0x01 | success with a JSON result) | Ack(error) | Ack(garbage) | Timeout in any order; payout / refund sub-call made to fail (recipient or token rejects; every gas-limited sub-call runs out of gas), at most 1 (thorough 2) faults per history",
             "after every step, for every token: real holdings of the ics20 contract (kernel bank / cw20 Balance) >= sum over channels of Channel{id}.balances; monitor per (channel, denom): credit = escrowed by accepted transfers - really paid out (redemptions + refunds, measured as falls of the contract's real balance in steps on that channel) >= 0; a packet whose denom is not a proper voucher of this channel for a local token, or whose amount exceeds the channel balance reported before the step, or that is not ICS-20 data moves no bank or cw20 balance at all; holdings never move in governance / migrate steps",
         ),
         "C12" => (
@@ -557,7 +571,7 @@ fn describe(prop: &str) -> (&'static str, &'static str) {
             "reference per (channel, denom): outstanding = accepted sends - sends whose error-ack/timeout was processed - amounts of incoming packets answered with a success ack, compared with Channel{id}.balances after every step; total_sent never falls; per incoming packet: ibc_packet_receive never returns Err/panics; success ack => receiver's real balance rose by exactly the amount and the channel balance fell by it; error ack => ALL Channel queries, all bank and cw20 balances, Config, Admin, ListAllowed, Allowed and the packets in flight equal the pre-state; per accepted transfer: exactly one committed IbcMsg::SendPacket, by the ics20 contract, on the requested channel, data == {amount (<= 2^64-1), denom (native name | cw20:<token>), receiver, sender = paying user, memo iff requested}, timeout timestamp == block time + (requested | default) seconds, contract holdings rose and payer's balance fell by the amount; migrations leave balances alone and arrive at outstanding == escrow",
         ),
         "C18" => (
-            "initial allow lists [] | [T1:unlimited] | [T1:1] x default gas limit None | 2; Allow{T1|T2, None|0|1|2^64-2|2^64-1} (0 and u64::MAX are genuine limits) and UpdateAdmin{G|G2} by governance G, the later/former governance G2 and a stranger X who is the contract's chain-level (wasm) admin; initial default gas limit None | 2 | 0; Migrate{None|0|3} at every state; cw20 transfers of T1 (by user A) and of T2 (by the governance account G itself, which becomes the former governance after UpdateAdmin), native transfers, and transfers of a BANK coin whose denom is literally \"cw20:<T2>\"; incoming packets redeeming them; error acks and timeouts that trigger refunds",
+            "initial allow lists [] | [T1:unlimited] | [T1:1] x default gas limit None | 2; Allow{T1|T2, None|0|1|2^64-2|2^64-1} (0 and u64::MAX are genuine limits) and UpdateAdmin{G|G2} by governance G, the later/former governance G2 and a stranger X who is the contract's chain-level (wasm) admin; initial default gas limit None | 2 | 0; Migrate{None|0|3} at every state; cw20 transfers of T1 (by user A) and of T2 (by the governance account G itself, which becomes the former governance after UpdateAdmin), native transfers, and transfers of a BANK coin whose denom is literally \"cw20:<T2>\"; incoming packets redeeming them, also with amount 0; error acks and timeouts that trigger refunds",
             "reference {gov, allow: token -> limit, default} == Admin, Config.gov_contract, Config.default_gas_limit, fully paged ListAllowed, Allowed{T1}, Allowed{T2} after every step; Allow / UpdateAdmin accepted only from the reference governance; admin, allow list and default change in no other step (migrate may set, never unset, the default); a listed token never disappears, its limit never falls, unlimited stays unlimited (checked against the reference and, independently, pre vs. post listing); a cw20 transfer is accepted only if the token is listed or a default exists; every payout / refund sub-message dispatched by the contract carries gas_limit == allow[token] if listed (None if unlimited) else the default, native payouts carry none; a cw20 token that is listed or covered by a default stays redeemable: a returning voucher / error ack / timeout whose amount the channel balance covers issues a payout sub-call to the token",
         ),
         _ => ("", ""),
